@@ -256,7 +256,8 @@ pub fn install_panic_hook() {
             "<non-string panic>".into()
         };
         if verbose {
-            eprintln!("[panic] {} at {}", msg, loc);
+            use std::io::Write;
+            let _ = writeln!(std::io::stderr(), "[panic] {} at {}", msg, loc);
         }
         LAST_PANIC.with(|p| *p.borrow_mut() = Some((loc, msg)));
     }));
